@@ -87,6 +87,41 @@ func c01MemberType(r *core.R, cm *c01Model, t *c01Tracer, fi *FuncInfo, as *ast.
 		judge(c, as, names[0], name)
 		return
 	}
+	// form 3: a lookup in a constant table of the package: keys are the format's member types, values the osm types;
+	// a key the table does not hold yields the zero value (the empty type), like a switch without default
+	if ix, isIx := ast.Unparen(c01Expand(info, fi.Decl.Body, rhs)).(*ast.IndexExpr); isIx {
+		var mo types.Object
+		switch x := ast.Unparen(ix.X).(type) {
+		case *ast.Ident:
+			mo = info.Uses[x]
+		}
+		var lit *ast.CompositeLit
+		if mo != nil {
+			lit = c01ConstMap(cm.m.pk, mo)
+		}
+		if lit == nil {
+			r.Unknown("store@Member.Type ?", as.Pos(), "`%s`: the member type is looked up in something that is not a constant map of the package (declared with a literal and never written)", src(r.P.Fset, as))
+			return
+		}
+		if ok, got := fromTypesColumn(&c01Ctx{fi: fi}, ix.Index); !ok {
+			r.Bad("store@Member.Type table", as.Pos(), "the key of the member type table is computed from %v, not from the relation's types column", got)
+			return
+		}
+		for _, el := range lit.Elts {
+			kv, isKV := el.(*ast.KeyValueExpr)
+			if !isKV {
+				continue
+			}
+			k, name := enumConst(kv.Key), typeName(kv.Value)
+			c := "store@Member.Type " + name
+			if k == "" || name == "" {
+				r.Unknown(c, kv.Pos(), "entry `%s` of the member type table is not `Relation_X: osm.TypeX`", src(r.P.Fset, kv))
+				continue
+			}
+			judge(c, kv, k, name)
+		}
+		return
+	}
 	// form 2: the result of a classifying function
 	call, ok := ast.Unparen(rhs).(*ast.CallExpr)
 	var tf *FuncInfo
